@@ -301,6 +301,33 @@ func (s *Session) Quiesce(idle, timeout time.Duration) bool {
 		}
 		time.Sleep(10 * time.Millisecond)
 	}
+	// the server's write returning does not mean the client goroutine has read the message yet: give every live
+	// client the time to catch up with what the server wrote to it (a real loss still shows: the wait times out)
+	catchUp := time.Now().Add(15 * time.Second)
+	for time.Now().Before(catchUp) {
+		s.mu.Lock()
+		written := map[int]int{}
+		for _, e := range s.trace {
+			if e.K == "write" && e.OK {
+				written[e.C]++
+			}
+		}
+		s.mu.Unlock()
+		behind := false
+		s.cmu.Lock()
+		for id, c := range s.clients {
+			c.mu.Lock()
+			if c.conn != nil && !c.Dropped && len(c.Recv) < written[id] {
+				behind = true
+			}
+			c.mu.Unlock()
+		}
+		s.cmu.Unlock()
+		if !behind {
+			break
+		}
+		time.Sleep(5 * time.Millisecond)
+	}
 	last := map[string]any{}
 	live := []int{}
 	s.cmu.Lock()
